@@ -463,7 +463,7 @@ def check(pid, tier, seed):
         # use as an input of a merge, systematically: every pair of the Merge universe (TLC export, lists of <= 2 entries) as
         # parsed files whose first keys have no value; the full extended dump of BOTH inputs before and after the call
         from . import p_merge
-        rm, recsm, _ = export("MC_Merge", {"MaxLen": 2, "Export": "TRUE", "Hdr": "FALSE"}, ["MergeIsRef"], seed=seed)
+        rm, recsm, _ = export("MC_Merge", {"MaxLen": 2, "Export": "TRUE", "Hdr": "FALSE", "NoV": "FALSE"}, ["MergeIsRef"], seed=seed)
         nmerge = p_merge.inputs_unchanged(exe, [(x["b"], x["o"]) for x in recsm], verdict, "C10")
         acc += nmerge
         # read-only calls inside mixed histories against the root specification: merges (also with a tag-less option object as
